@@ -736,16 +736,20 @@ class Povm(QOperation):
                 spectral_decomp = dict()
                 eigenval_prev = None
                 for eigenval, eigenvec in zip(eigenvals, eigenvecs.T):
-                    if eigenval_prev == eigenval:
+                    # eigenvalues of a degenerate eigenspace are returned equal only up to rounding
+                    if eigenval_prev is not None and np.isclose(
+                        eigenval_prev, eigenval, rtol=0.0, atol=Settings.get_atol()
+                    ):
                         P = np.dot(
                             np.array([eigenvec]).T, np.array([eigenvec]).conjugate()
                         )
-                        spectral_decomp[eigenval].append(P)
+                        spectral_decomp[eigenval_key].append(P)
                     else:
                         P = np.dot(
                             np.array([eigenvec]).T, np.array([eigenvec]).conjugate()
                         )
-                        spectral_decomp[eigenval] = [P]
+                        eigenval_key = eigenval
+                        spectral_decomp[eigenval_key] = [P]
                     eigenval_prev = eigenval
 
                 hs_cb = None
